@@ -128,4 +128,36 @@ theorem ordered_product_unitary {n : Nat} (hn : 0 < n) (factors : List (LMat α)
     exact ih _ (unitary_mul h hn (hf F (by simp)) hacc) (fun G hG => hf G (by simp [hG]))
 
 end lawful
+
+/-- a predicate holds for every (sub-gate, placement) of an op list -/
+def OpsAll (p : GateTerm P → List Nat → Prop) : OpList P → Prop
+  | .nil => True
+  | .cons g bits rest => p g bits ∧ OpsAll p rest
+
+section lawful2
+variable (h : LawfulAmp α P)
+include h
+
+/-- the documented matrix of a composite (ordered product of the embedded documented factors) is
+unitary as soon as every embedded factor is -/
+theorem specOps_unitary {n : Nat} : (ops : OpList P) → (acc : LMat α) → Unitary P (2 ^ n) acc →
+    OpsAll (fun g bits => Unitary P (2 ^ n) (embed n bits (specMatrix g : LMat α))) ops →
+    Unitary P (2 ^ n) (specOps ops n acc)
+  | .nil, _, hacc, _ => by simpa [specOps] using hacc
+  | .cons g bits rest, acc, hacc, hops => by
+      simp only [specOps]
+      exact specOps_unitary rest _ (unitary_mul h (Nat.pow_pos (by decide)) hops.1 hacc) hops.2
+
+theorem spec_composite_loop_unitary {n : Nat} (label nm : String) (k : Nat) (ops : OpList P)
+    (hops : OpsAll (fun g bits => Unitary P (2 ^ n) (embed n bits (specMatrix g : LMat α))) ops) :
+    Unitary P (2 ^ n) (specMatrix (.Composite nm n ops) : LMat α) ∧
+    Unitary P (2 ^ n) (specMatrix (.Loop label k nm n ops) : LMat α) := by
+  have hc : Unitary P (2 ^ n) (specOps ops n (LMat.identity (2 ^ n)) : LMat α) :=
+    specOps_unitary h ops _ (unitary_identity h (Nat.pow_pos (by decide))) hops
+  refine ⟨by simpa [specMatrix] using hc, ?_⟩
+  simp only [specMatrix]
+  exact unitary_mpow h (Nat.pow_pos (by decide)) hc k
+
+end lawful2
+
 end Q1t.Proofs.Unitaries
